@@ -62,7 +62,10 @@ func c06cRun(c c06cCase) string {
 	h := &fakeStore{name: "healthy-store", mint: 0, maxt: 1 << 40, withoutReplica: true, withHash: true, honourCancel: true,
 		frames: func(*storepb.SeriesRequest) []frameSpec { return hf }}
 	s := &fakeStore{name: "hanging-store", mint: 0, maxt: 1 << 40, withoutReplica: true, withHash: true,
-		frames: func(*storepb.SeriesRequest) []frameSpec { return sf }, fault: faultSpec{kind: faultStall, after: c.hangAfter}}
+		frames: func(*storepb.SeriesRequest) []frameSpec { return sf }, fault: faultSpec{kind: faultStall, after: c.hangAfter},
+		// the hanging store starts to hang a little after the healthy store has read its frames, so
+		// that the healthy store's frame timer (if it wrongly keeps running) is the first to expire
+		lastFramePause: c.timeout / 4}
 	req := storepb.SeriesRequest{MinTime: 0, MaxTime: 1 << 39,
 		Matchers: []storepb.LabelMatcher{{Type: storepb.LabelMatcher_RE, Name: "a", Value: ".+"}}}
 	cfg := proxyCfg{strategy: c.strategy, lazyBuf: c.lazyBuf, batch: c.batchOut, timeout: c.timeout, prs: storepb.PartialResponseStrategy_WARN}
@@ -128,7 +131,8 @@ func TestVerifC06_HealthyStreamNotCancelled(t *testing.T) {
 	// saved input of the seeded change "leave the frame timer running unless the buffer is already full"
 	for _, c := range []c06cCase{
 		{healthyFrames: []int{4, 4}, hangAfter: 2, hangFrames: 4, lazyBuf: 1, strategy: store.LazyRetrieval, timeout: 150 * time.Millisecond},
-		{healthyFrames: []int{1, 6, 1}, hangAfter: 0, hangFrames: 1, lazyBuf: 3, strategy: store.LazyRetrieval, timeout: 150 * time.Millisecond},
+		{healthyFrames: []int{1, 6, 1}, hangAfter: 1, hangFrames: 2, lazyBuf: 3, strategy: store.LazyRetrieval, timeout: 150 * time.Millisecond},
+		{healthyFrames: []int{5}, hangAfter: 1, hangFrames: 1, lazyBuf: 2, strategy: store.LazyRetrieval, timeout: 150 * time.Millisecond},
 	} {
 		if msg := c06cCheck(c); msg != "" {
 			rec.Violation(t, "healthy stream cancelled while another store hangs: %s | %s", msg, c)
@@ -151,6 +155,9 @@ func TestVerifC06_HealthyStreamNotCancelled(t *testing.T) {
 		}
 		c.hangFrames = rapid.SampledFrom([]int{0, 1, 2, 3, 4}).Draw(rt, "hangFrames")
 		c.hangAfter = rapid.IntRange(0, c.hangFrames).Draw(rt, "hangAfter")
+		if c.hangAfter == 0 && c.hangFrames > 0 && rapid.IntRange(0, 3).Draw(rt, "forceLate") > 0 {
+			c.hangAfter = 1
+		}
 		c.lazyBuf = rapid.SampledFrom([]int{1, 1, 2, 2, 3, 4, 6}).Draw(rt, "lazyBuf")
 		c.batchOut = rapid.SampledFrom([]int64{0, 1, 3}).Draw(rt, "batchOut")
 		c.strategy = rapid.SampledFrom([]store.RetrievalStrategy{store.LazyRetrieval, store.LazyRetrieval, store.EagerRetrieval}).Draw(rt, "strategy")
